@@ -112,6 +112,9 @@ def run_arch(ck, arch, prop):
                     if later:
                         g2 = f[:m.start()] + "lat1" + f[m.end():]
                         src = "@org %d\n %s\n@defn lat1, %d\n" % (ORG, g2, v)
+                        if rng.random() < 0.25:
+                            # ... with an assertion that only the linker can check, and that holds, queued before it
+                            src = "@org %d\n@assert lat1 == lat1, \"holds\"\n %s\n@defn lat1, %d\n" % (ORG, g2, v)
                     else:
                         src = "@org %d\n %s\n" % (ORG, g)
                     sweeps.append((f, k, v, later, src, ORG))
@@ -121,7 +124,7 @@ def run_arch(ck, arch, prop):
     # something else for this CPU) a parenthesised sum / number.  An accepted spelling must encode the value of the
     # expression: either as the form it was derived from or, if the parentheses select another documented form
     # (`ld a, (3)`), as that one.
-    written_alt = {}
+    written_alt, same_as, plain_seen = {}, {}, set()
     for f in census_forms:
         ms = list(asmk.NUMRE.finditer(f))
         mn = f.split()[0]
@@ -132,6 +135,8 @@ def run_arch(ck, arch, prop):
         for v in (3, 18, 200, 255, 300, 4660):
             plain = f[:m.start()] + str(v) + f[m.end():]
             texts = ["%d+%d" % (v - 1, 1), "%d-%d" % (v + 2, 2)]
+            # an expression may also start with a directive: @here is the address of the statement
+            texts.append("@here + %d" % (v - ORG) if v >= ORG else "@here - %d" % (ORG - v))
             if arch != "6502" and not inside_paren:
                 texts += ["(%d+%d)" % (v - 1, 1), "(%d)" % v, "(+%d)" % v]
             for tx in texts:
@@ -141,6 +146,13 @@ def run_arch(ck, arch, prop):
                     alts.append(f[:m.start()] + "(%d)" % v + f[m.end():])
                 written_alt[src] = alts
                 sweeps.append((f, len(ms) - 1, v, None, src, ORG))
+                if not tx.startswith("("):
+                    # the same value written as a plain number: both spellings are accepted or rejected alike
+                    psrc = "@org %d\n %s\n" % (ORG, plain)
+                    same_as[src] = psrc
+                    if psrc not in plain_seen:
+                        plain_seen.add(psrc)
+                        sweeps.append((f, len(ms) - 1, v, "plain", psrc, ORG))
     # relative branches at other origins, up to the very top of memory (the base of the distance is the address after the
     # instruction, which reaches $10000 for a branch at $FFFE)
     for f in census_forms:
@@ -249,7 +261,7 @@ def run_arch(ck, arch, prop):
                 ck.nontriv(form)
         else:
             f, k, v, later, src, sorg = sweeps[i - nprog]
-            form = src.split("\n")[1].strip()
+            form = next(l for l in src.split("\n")[1:] if not l.startswith("@")).strip()
             written = form.replace("lat1", str(v)).replace("0-", "-")
             ck.count("sweep:%s" % r.kind)
             ck.nontriv(src)
@@ -283,12 +295,26 @@ def run_arch(ck, arch, prop):
                         break
             elif len(ck.samples) < 4 and i % 997 == 0:
                 ck.sample({"arch": arch, "source": t, "bytes": r.bytes.hex(), "decoded": dec_out.get(i)})
+    # ---------------------------------------------------------------- O: an operand written as an expression is accepted exactly when the number is
+    by_src = {}
+    for j, sw in enumerate(sweeps):
+        by_src.setdefault(sw[4], impl[nprog + j])
+    for src, psrc in same_as.items():
+        a, b = by_src.get(src), by_src.get(psrc)
+        if a is None or b is None or a.crashed or b.crashed:
+            continue
+        if a.ok != b.ok:
+            ck.violation("%s: `%s` is %s, the same instruction with the value written as a number (`%s`) is %s" % (
+                arch, src.split("\n")[1].strip(), "accepted" if a.ok else "rejected: " + (a.msg or "")[-80:].replace("\n", " "),
+                psrc.split("\n")[1].strip(), "accepted" if b.ok else "rejected"),
+                {"mode": "asm", "arch": arch, "source": src, "harness_case": asm_case(arch, text=src), "expected": b.canon()})
+            break
     # ---------------------------------------------------------------- O: acceptance must be exactly the field's range
     groups = {}
     for j, (f, k, v, later, src, sorg) in enumerate(sweeps):
         groups.setdefault((f, k, later, sorg), []).append((v, impl[nprog + j], j))
     for (f, k, later, sorg), items in groups.items():
-        if later is None:
+        if later is None or later == "plain":
             continue
         mn = f.split()[0]
         acc = [v for v, r, _ in items if r.ok]
